@@ -248,6 +248,7 @@ class Gen:
         elif kind == "switchc" and c:
             cs = [self.C() for _ in range(r.randint(2, 4))]
             n = self.fresh("c"); L.append(f"switchc {n} {c} {' '.join(cs)}"); self.add_cell(n, self.t(c, *cs)); self.swc.add(n)
+            if self.p.get("sample_after_switchc"): L.append(f"sample {n}")      # (L-struct: the result's initial thunk is forced at once)
         elif kind == "router" and s:
             rn = self.fresh("r"); L.append(f"router {rn} {s} {r.randint(0, 2)}"); self.routers.append((rn, s))
             keys = [r.randint(0, 2) for _ in range(r.randint(1, 3))]
